@@ -706,8 +706,8 @@ def run(eng: Engine, ck: Check):
               [(n, unparse(n.value)) for n in walk_local(msi.node) if isinstance(n, ast.AugAssign) and isinstance(n.op, ast.Add) and unparse(n.target) == bufp]
         order = [x for n, x in sorted(ext, key=lambda t: pos_of(t[0])) if pos_of(n) > pos_of(n_len)]
         facts['after the length exactly the code and then the body are appended'] = order == [idv, bodyv] and len(ext) == 2
-        comp = [n for n in walk_local(msi.node) if isinstance(n, ast.Assign) and unparse(n.targets[0]) == bodyv and
-                (phas(n.value, f'zlib.compress({bodyv})') or phas(n.value, f'zlib.compress(bytes({bodyv}))'))]
+        comp = [n for n in walk_local(msi.node) if isinstance(n, ast.Assign) and unparse(n.targets[0]) == bodyv and any(
+            isinstance(y_, ast.Call) and unparse(y_.func) == 'zlib.compress' and y_.args and mentions_name(y_.args[0], bodyv) for y_ in ast.walk(expand_aliases(msi, n.value)))]
         facts['compression (when requested) replaces the body before the length is computed'] = len(comp) == 1 and pos_of(comp[0]) < pos_of(n_len) and \
             any(pol and unparse(e) in [p_ for p_ in msi.params] for e, pol, _ in eng.guards_at(msi, comp[0]))
     bad = [k for k, v in facts.items() if not v]
